@@ -1,7 +1,7 @@
 SPECIFICATION Spec
 CONSTANTS
   NQ = 3
-  Ranges = {"lo", "full", "hi"}
+  Ranges = {"0_2", "0_3", "0_4", "1_2", "1_3", "1_4", "2_2", "2_3", "2_4", "3_3", "3_4"}
   Phases = {"head", "ooo", "blocks"}
   EmitMode = "done"
   Record = TRUE
